@@ -112,6 +112,31 @@ def is_grease_stream_prefix(b, complete):
     return GREASE_BODY.startswith(rest) and rest != GREASE_BODY
 
 
+def exact_budget(case):
+    """programs in which the model follows the write budget exactly (only peer control frames and polls, no GOAWAY):
+    there the partially accepted grease write is predicted by the model, not normalised"""
+    w = case.split()
+    if w[0] != 'wr' or w[3] == '-':
+        return False
+    ops = [] if w[4] == '-' else w[4].split(',')
+    for o in ops:
+        k, _, a = o.partition(':')
+        if k == 'poll':
+            continue
+        if k == 'peer':
+            b = bytes.fromhex(a or '000400')
+            if b[:1] != b'\x00':
+                return False
+            fs = split_frames(b, 1)
+        elif k == 'pframe':
+            fs = split_frames(bytes.fromhex(a))
+        else:
+            return False
+        if fs is None or any(t == 7 for t, _ in fs):
+            return False
+    return True
+
+
 def parse_streams(out):
     """'ok [res=..] s<id>=<hex>[/F] ...' -> (res, {id: (bytes, fin)}) or None"""
     w = out.split()
@@ -193,10 +218,19 @@ class P(Property):
         for _ in range(rng.randint(0, maxn)):
             if left <= 0:
                 break
-            if only_c or rng.random() < 0.6:
+            r = rng.random()
+            if only_c or r < 0.35:
                 a = rng.randint(1, 9)
                 steps.append('c%d' % a)
                 left -= min(a, left)
+            elif r < 0.55:      # a writev-style reader (chunks_vectored)
+                a = rng.randint(1, 9)
+                steps.append('v%d' % a)
+                left -= min(a, left)
+            elif r < 0.75:      # copy_to_bytes
+                a = rng.randint(0, min(left, 12))
+                steps.append('b%d' % a)
+                left -= a
             else:
                 a = rng.randint(0, min(left, 12))
                 steps.append('a%d' % a)
@@ -278,6 +312,18 @@ class P(Property):
     CFG_M = [0, 1, 63, 64, 166, 167, 16383, 16384, 2 ** 30 - 1, 2 ** 30, M62 - 1]
 
     def _cfg(self, rng, role):
+        r = rng.random()
+        if r < 0.08:
+            return 'new'        # server::Connection::new / client::new
+        if r < 0.14:
+            return '-'          # builder defaults
+        full = self._cfg_full(rng, role)
+        if rng.random() < 0.3:  # only some setters are called
+            toks = [t for t in full.split('.') if rng.random() < 0.5]
+            return '.'.join(toks) or '-'
+        return full
+
+    def _cfg_full(self, rng, role):
         g = rng.choice([0, 1, 1])
         m = rng.choice(self.CFG_M + [M62 - 1] * 6 + [1000] * 4)
         s = 'g%d.m%d.x%d.d%d' % (g, m, rng.randint(0, 1), rng.randint(0, 1))
@@ -298,8 +344,8 @@ class P(Property):
         rng.shuffle(ids)
         pl = ''
         for i in ids:
-            if i == 6:      # the peer's MAX_FIELD_SECTION_SIZE: large enough for every message of these programs
-                v = rng.choice([1000, 16383, 16384, 2 ** 30, M62 - 1])
+            if i == 6:      # the peer's MAX_FIELD_SECTION_SIZE: around the sizes of what these programs send (36, 42, 167, 168)
+                v = rng.choice([1000, 16383, 16384, 2 ** 30, M62 - 1, 1000, 0, 35, 36, 41, 42, 166, 167, 168])
             elif i in (8, 0x33, 0x2b603742):
                 v = rng.choice([0, 1])
             else:
@@ -338,6 +384,12 @@ class P(Property):
         more = ''.join(self._peer_frame(rng, role) for _ in range(rng.choice([0, 0, 0, 1, 2])))
         return 'peer:00' + st + more
 
+    def _puni(self, rng, peer_open):
+        t = rng.choice([2, 3, 2, 3, 1, 0x21, 0x54, 31 * rng.randrange(GREASE_RANGE) + 33, 0x40] + ([0] if peer_open else []))
+        if rng.random() < 0.1:
+            return 'puni:-'
+        return 'puni:' + vi(t) + rb(rng, rng.choice([0, 0, 1, 5])).hex()
+
     def _acc(self, rng):
         if rng.random() < 0.6:
             return 'acc'
@@ -347,13 +399,24 @@ class P(Property):
 
     def _prog(self, rng, role, maxlen=12):
         ops = []
-        peer = rng.random() < 0.65
-        if peer:
-            ops.append(self._peer_open(rng, role))
+        want_peer = rng.random() < 0.65
         n = rng.randint(0, maxlen)
+        peer_at = 0 if rng.random() < 0.6 else rng.randint(0, n)   # the peer's control stream may arrive at any time
+        peer = False
         opened = 0
-        for _ in range(n):
+        for i in range(n + 1):
+            if want_peer and i == peer_at:
+                ops.append(self._peer_open(rng, role))
+                peer = True
+            if i == n:
+                break
             r = rng.random()
+            if rng.random() < 0.05:
+                ops.append(self._puni(rng, peer))
+                continue
+            if rng.random() < 0.03:
+                ops.append(rng.choice(['zfin:%d' % rng.randint(1, 4), 'cstop:%d' % rng.choice([0, 268]), 'xu', 'zfin:1']))
+                continue
             if peer and rng.random() < 0.12:
                 ops.append('pframe:' + ''.join(self._peer_frame(rng, role) for _ in range(rng.choice([1, 1, 2, 3]))))
                 continue
@@ -421,23 +484,31 @@ class P(Property):
               'peer:0004030643e8,acc:post:F,recv,resp:200,data:aa,trailers,finish', 'peer,pframe:0400,acc,shutdown:1',
               'acc:big:F,resp:200,finish,acc:nometh:F,acc:none:R256,acc:connect:F,resp:200,finish',
               'acc:get:S268,resp:200,data:aa,finish,acc,resp:200,sstop:0,data:aa,finish', 'peer,pframe:0001aa,acc,shutdown:0',
-              'peer,acc:badqpack:F,acc,shutdown:0', 'acc:data1st:F,poll,shutdown:2'],
+              'peer,acc:badqpack:F,acc,shutdown:0', 'acc:data1st:F,poll,shutdown:2',
+              'peer,pframe:0d0105,pframe:0d0106,pframe:030100,poll', 'peer:0004000d01052100,pframe:2100,pframe:0d0100',
+              'acc,resp:200,peer:0004020623,trailers,resp:200,finish', 'puni:02,puni:03,puni:21aa,peer,puni:00,acc,shutdown:0',
+              'acc,cstop:5,shutdown:0,acc,shutdown:0', 'acc,resp:200,zfin:3,finish,xu,data:aa,shutdown:0,acc'],
         'c': ['-', 'peer', 'req:GET,finish', 'peer,req:POST,data:6869,finish', 'req:GET,data:-,data:01,trailers,finish',
               'req:GET,finish,req:GET,finish', 'peer,req:PUT,data:0102.0304.05,trailers,finish,shutdown:0', 'shutdown:0,req:GET',
               'req:GET,req:GET,sel:0,data:aa,sel:1,data:bb,finish,sel:0,finish', 'req:GET,finish,finish,data:aa', 'shutdown:0,shutdown:0',
               'peer,pframe:070104,req:GET,poll', 'peer,req:GET,pframe:070103,req:GET,data:aa,finish,shutdown:0',
               'peer,req:GET,pframe:0d0105,req:GET,finish', 'peer,pframe:2100,pframe:070100,pframe:070100,req:GET',
-              'peer:0004030643e8,req:POST,sstop:3,data:aa,finish', 'peer,pframe:0400,req:GET,finish,shutdown:0'],
+              'peer:0004030643e8,req:POST,sstop:3,data:aa,finish', 'peer,pframe:0400,req:GET,finish,shutdown:0',
+              'peer,pframe:2100,pframe:2100,poll', 'peer:0004030640a6,req:GET,req:POST,finish', 'req:GET,peer:0004020623,trailers,finish',
+              'cstop:0,req:GET,shutdown:0,req:GET,finish', 'req:GET,xu,data:aa,finish,req:GET,shutdown:0', 'puni:03,puni:03,req:GET'],
     }
 
     def wr_cases(self, tier, rng):
         out = []
         # exhaustive write quanta on short programs
         for role in ('s', 'c'):
-            cfgs = (['g1.m4611686018427387903.x0.d0' + ('.w0.n0' if role == 's' else ''), 'g0.m100.x1.d1' + ('.w1.n64' if role == 's' else '')])
+            cfgs = (['g1.m4611686018427387903.x0.d0' + ('.w0.n0' if role == 's' else ''), 'g0.m100.x1.d1' + ('.w1.n64' if role == 's' else ''), 'new'])
             for prog in self.SHORT[role]:
                 for cfg in cfgs:
                     out.append('wr %s %s - %s' % (role, cfg, prog))
+                    if cfg == 'new' and tier == 'quick':
+                        out.append('wr %s %s 0:3 %s' % (role, cfg, prog))
+                        continue
                     qs = (1, 2, 3, 5, 8) if tier == 'quick' else range(1, 9)
                     bs = (0,) if tier == 'quick' else range(0, 9)
                     for q in qs:
@@ -482,7 +553,9 @@ class P(Property):
                 f = '/F' if fin else ''
                 if sid & 2:
                     if sid == grease_id:
-                        if fin and is_grease_stream_prefix(b, True):
+                        if exact_budget(case) and is_grease_stream_prefix(b, fin):
+                            toks.append('s%d=GSX%d%s' % (sid, len(b), f))     # length and FIN as the model predicts them
+                        elif fin and is_grease_stream_prefix(b, True):
                             toks.append('s%d=GS' % sid)
                         elif not fin and budget != '-' and is_grease_stream_prefix(b, False):
                             toks.append('s%d=GS' % sid)
